@@ -1,15 +1,28 @@
 #!/venv/bin/python
-"""Regenerates Appendix F of DESIGN.md (defect dispositions) from KNOWN_FINDINGS.json. Appendix F must stay the LAST section."""
-import json
+"""Regenerates Appendices E (seeded changes) and F (defect dispositions) of DESIGN.md from /verif/seeded/*/meta.json and
+KNOWN_FINDINGS.json. They must stay the LAST two sections of DESIGN.md."""
+import glob, json, os
+s = open('/verif/DESIGN.md').read()
+marker = "\n## Appendix E — Seeded changes"
+if marker in s:
+    s = s[:s.index(marker)]
+out = ["", "## Appendix E — Seeded changes (`/verif/seeded/<id>_<k>/`) and the checks that catch them", "",
+       "Each change was written by a fresh sub-agent that saw only the property text and a scratch worktree (round 2 was also told the",
+       "summary of the round-1 change, to force a different mechanism). I confirmed every one with `tools/confirm_seed.py` (the patch applies",
+       "to HEAD; the demonstration passes on the unchanged tree and fails with the change; the suite result is unchanged) and ran the check on",
+       "the patched tree in isolation with `tools/try_patch.sh`. Generated from the `meta.json` files.", "",
+       "| seed | change | needs | outcome |", "|---|---|---|---|"]
+def clean(t, n):
+    t = ' '.join(str(t).split()).replace('|', '/')
+    return t if len(t) <= n else t[:n - 1] + '…'
+for d in sorted(glob.glob('/verif/seeded/*/meta.json')):
+    m = json.load(open(d))
+    out.append("| %s | %s | %s | %s |" % (os.path.basename(os.path.dirname(d)), clean(m.get('summary', ''), 330), clean(m.get('needs', ''), 260), clean(m.get('detection', ''), 420)))
 k = json.load(open('/verif/KNOWN_FINDINGS.json'))
-out = ["", "## Appendix F — Disposition of every defect (generated from KNOWN_FINDINGS.json; that file is authoritative)", "",
-       "Repaired in `/repo` (one unguarded `fix:` commit each; the 547-test baseline still passes, and the four `test_parse` tests that always failed in the pinned environment now pass):", ""]
+out += ["", "## Appendix F — Disposition of every defect (generated from KNOWN_FINDINGS.json; that file is authoritative)", "",
+        "Repaired in `/repo` (one unguarded `fix:` commit each; the 547-test baseline still passes, and the four `test_parse` tests that always failed in the pinned environment now pass):", ""]
 out += ["* " + f.replace("fixed: ", "") for f in k['fixed']]
 out += ["", "Recorded, not repaired (each keyed by a predicate on the failing case; the check prints `KNOWN-FINDING` and stays green; any other violation of the same property still alarms):", ""]
 out += ["* **%s / %s** — %s  Match: `%s`" % (f['id'], f['property'], f['what'], json.dumps(f['match'])) for f in k['findings']]
-s = open('/verif/DESIGN.md').read()
-marker = "\n## Appendix F — Disposition of every defect"
-if marker in s:
-    s = s[:s.index(marker)]
 open('/verif/DESIGN.md', 'w').write(s.rstrip('\n') + "\n" + "\n".join(out) + "\n")
-print(len(k['fixed']), 'fixed;', len(k['findings']), 'findings')
+print(len(glob.glob('/verif/seeded/*/meta.json')), 'seeds;', len(k['fixed']), 'fixed;', len(k['findings']), 'findings')
